@@ -216,7 +216,8 @@ def jsonbGen (seed idx size : Nat) : Case :=
     (if st.xk then ["xkey"] else []) ++ (if st.xv then ["xval"] else []) ++
     (if st.xk && st.xv then ["xboth"] else []) ++ (if st.xa then ["xarr"] else []) ++
     (if st.empty then ["empty"] else []) ++ (if st.nums > 0 then ["nums"] else []) ++
-    (if st.xv then ["kf:A21"] else []) ++ (if st.empty then ["kf:A22"] else [])
+    (if st.xv then ["kf:A21"] else []) ++ (if st.empty then ["kf:A22"] else []) ++
+    (if st.big then ["kf:J10K"] else [])
   { tags, model := showM showView m, spec := showView view,
     args := [toString via, hexRle blob, specHints] ++ (if modelHints == specHints then [] else [modelHints]) }
 
